@@ -743,6 +743,7 @@ REMOTE_MODES = [["--commit-style", "yellow"], ["--commit-style", "raw", "--commi
                 ["--commit-style", "blue", "--line-numbers"], ["--commit-style", "yellow", "--side-by-side", "--width", "100"],
                 ["--commit-style", "bold", "--commit-decoration-style", "ul", "--navigate"]]
 HEXD = "0123456789abcdef"
+LOOKALIKES = ["subdomain", "suffix", "prefix", "dot", "www", "tld", "parent", "forge-in-path"]
 
 
 def forge_path(rng, forge):
@@ -770,6 +771,11 @@ def lookalike(rng, forge, kind):
         return forge.replace(".", rng.choice(["x", "-", "_"])), "", kind
     if kind == "www":
         return rng.choice(["www.", "ssh.", "api."]) + forge, "", kind
+    if kind == "tld":
+        return forge.rsplit(".", 1)[0] + "." + rng.choice(["io", "net", "org" if not forge.endswith("org") else "page", "dev", "co"]), "", kind
+    if kind == "parent":
+        labels = forge.split(".")
+        return (".".join(labels[1:]) if len(labels) > 2 else "the" + forge), "", kind
     if kind == "forge-in-path":
         return "evil.org", forge + "/", kind
     if kind == "at-sign-in-path":
@@ -839,7 +845,7 @@ def remote_cases(ctx):
                 add(form, f, forge_path(rng, f), "forge", f, dotgit=dg)
     # (2) look-alike hosts, every kind for every forge; the gitlab.<x> family in both forms
     for f in forges:
-        for kind in ("subdomain", "suffix", "prefix", "dot", "www", "forge-in-path"):
+        for kind in LOOKALIKES:
             host, pre, cls = lookalike(rng, f, kind)
             add(rng.choice(["https", "scp", "scp-bare"]), host, pre + forge_path(rng, f), "lookalike:" + cls, f)
     for host in ("gitlab.example.org", "gitlab.gnome.org", "gitlab.com.cn", "gitlab.freedesktop.org"):
@@ -880,7 +886,7 @@ def remote_cases(ctx):
         if k < 0.45:
             add(rng.choice(["https", "scp", "scp-bare"]), f, forge_path(rng, f), "forge", f, dotgit=False if f == "git.sr.ht" else None)
         elif k < 0.85:
-            host, pre, cls = lookalike(rng, f, rng.choice(["subdomain", "suffix", "prefix", "dot", "www", "forge-in-path"]))
+            host, pre, cls = lookalike(rng, f, rng.choice(LOOKALIKES))
             add(rng.choice(["https", "scp", "scp-bare", "ssh"]), host, pre + forge_path(rng, f), "lookalike:" + cls, f,
                 cfmt=rng.choice([None, None, None, "https://example.com/c/{commit}"]))
         else:
